@@ -206,7 +206,9 @@ pub fn gen_c11_sealed_clear(_tier: Tier, seed: u64) -> Case {
         let v = g.val_sized(24, true);
         program.push(Op::Insert { ks: a, key: g.key(), val: v });
     }
-    for _ in 0..g.r.range(1, 2) {
+    // (a clear consumes two sequence numbers when it happens and one when it is replayed: several
+    // trailing clears leave record seqnos that replay alone does not climb back to)
+    for _ in 0..g.r.range(3, 9) {
         program.push(Op::Clear { ks: a });
     }
     program.push(Op::Rotate { ks: c });
